@@ -375,8 +375,21 @@ def generator_support(c):
     c.cover("payload_byte_taken", z3.And(O["o_ready"] == 1, I["i_valid"] == 1))
 
 
+# Caller side (w1_usb2_glue): what the endpoint contract treats as free inputs / observed outputs at its EndpointInterface is
+# connected, in the real USBEndpointMultiplexer and the real USBDevice, to the token detector, the handshake detector and
+# generator, the data packet generator (stream, ready, data PID) and from there to the UTMI transmit lines.
+WIRING = ("tokenizer", "handshakes_in", "handshakes_out", "tx", "utmi_tx")
+
+
 def contracts(tier):
+    from .w1_usb2_glue import mux_wiring, device_wiring
     yield ("USBDataPacketGenerator", "ready_low_at_packet_start", generator_support)
+    yield ("USBEndpointMultiplexer", "wiring_3_interfaces", mux_wiring(3, WIRING))
+    yield ("USBDevice", "wiring_utmi", device_wiring("utmi", WIRING))
+    if tier != "quick":
+        yield ("USBEndpointMultiplexer", "wiring_1_interface", mux_wiring(1, WIRING))
+        yield ("USBEndpointMultiplexer", "wiring_2_interfaces", mux_wiring(2, WIRING))
+        yield ("USBDevice", "wiring_ulpi", device_wiring("ulpi", WIRING))
     if tier == "quick":
         cfgs = [("endpoint", 4), ("endpoint", 8), ("manager", 8)]
     else:
